@@ -749,13 +749,13 @@ Section Settle2.
       apply settle_sub_spare; try assumption; [reflexivity|].
       intros x _ Hk. rewrite Hk. exact Hc.
     - (* JDeadLetterSweep *)
-      destruct (sweep_each st (sort_ids chosen) wnow fr) as [[[st1 fr1] w1] n1] eqn:E.
+      destruct (sweep_each st chosen wnow fr) as [[[st1 fr1] w1] n1] eqn:E.
       cbn [done r_notes r_state] in *.
       apply app_eq_nil in HL. destruct HL as [HL _].
       destruct (choice_legal _ chosen max) eqn:Ech in HL; [|discriminate].
       cbn [cause] in Hc.
-      assert (Hn : ~ In (d_id d) (sort_ids chosen)).
-      { intros Hi. apply in_sort_ids in Hi.
+      assert (Hn : ~ In (d_id d) chosen).
+      { intros Hi.
         pose proof (chosen_row d_id _ _ _ _ UD Hd (choice_legal_incl _ _ _ Ech) Hi) as HP.
         cbv beta in HP. rewrite Hs in HP. rewrite !andb_true_iff in HP.
         destruct HP as [[[[[_ P1] P2] _] _] _].
